@@ -25,11 +25,19 @@ func scenarios(tier string) []engine.Scenario {
 	}
 	// Scenario i runs on worker i mod 16: emitted family by family so that each family (= similar cost)
 	// is spread over all workers.
-	var ks, auto, rd, br, cp, pk, kn, es, md []engine.Scenario
+	var ks, auto, rd, br, cp, pk, kn, es, md, kb []engine.Scenario
 	for _, ch := range chains(tier) {
+		bound := bound
+		if ch.Name == "q61x6-p61x2" && tier != "thorough" {
+			bound = 1 // quick-tier budget: the seven-level chain at bound 2 is in thorough (manydigits/* covers long chains)
+		}
 		for _, rt := range []ring.Type{ring.Standard, ring.ConjugateInvariant} {
 			ks = append(ks, ksScenario(rt, 4, ch, bound))
-			auto = append(auto, autoScenario(rt, 4, ch, 2))
+			ab := 2
+			if rt == ring.ConjugateInvariant && tier != "thorough" {
+				ab = 1 // quick-tier budget: the conjugate-invariant automorphisms at bound 2 are in thorough
+			}
+			auto = append(auto, autoScenario(rt, 4, ch, ab))
 			rd = append(rd, ringDegScenario(rt, 5, ch, bound))
 			cp = append(cp, compressScenario(rt, 4, ch, bound))
 			es = append(es, evalSeqScenario(rt, 4, ch, boundAuto))
@@ -42,7 +50,10 @@ func scenarios(tier string) []engine.Scenario {
 			ks = append(ks, ksScenario(ring.ConjugateInvariant, 5, ch, 1))
 		}
 		br = append(br, bridgeScenario(ch, bound))
-		pk = append(pk, packScenario(5, 4, ch, boundAuto))
+		if ch.Name == "q30x3-p30x2" || ch.Name == "q60-45-p61x2" || ch.Name == "q45x3-noP" || tier == "thorough" {
+			kb = append(kb, keyBelowScenario(ring.Standard, 4, ch), keyBelowScenario(ring.ConjugateInvariant, 4, ch))
+		}
+		pk = append(pk, packScenario(5, 4, ch, boundAuto), packDirectScenario(5, 4, ch))
 		if tier == "thorough" {
 			pk = append(pk, packScenario(6, 4, ch, boundAuto))
 			ks = append(ks, ksScenario(ring.Standard, 5, ch, 2), ksScenario(ring.ConjugateInvariant, 5, ch, 2), ksScenario(ring.Standard, 6, ch, 1))
@@ -73,6 +84,7 @@ func scenarios(tier string) []engine.Scenario {
 	scs = append(scs, pk...)
 	scs = append(scs, cp...)
 	scs = append(scs, es...)
+	scs = append(scs, kb...)
 	scs = append(scs, kn...)
 	return scs
 }
@@ -99,6 +111,16 @@ func expect(tier string) []string {
 	for _, o := range deriveNames {
 		e = append(e, "evalseq-evaluator="+o)
 	}
+	for _, pc := range packCases {
+		e = append(e, "pack-case="+pc.String())
+	}
+	for _, o := range keyBelowOps {
+		e = append(e, "keybelow-op="+o)
+	}
+	e = append(e, "ringdeg-receiver=fresh", "ringdeg-receiver=dirty-metadata", "out=dirty-metadata", "out=dirty-metadata-other-degree",
+		"out=auto-fresh-above", "out=auto-in-place", "out=auto-dirty-metadata", "out=auto-dirty-above",
+		"evalseq-refused=Automorphism(missing key)", "evalseq-refused=AutomorphismHoisted(missing key)", "evalseq-refused=Relinearize(degree-1 input)",
+		"evalseq-refused=Automorphism(degree-2 input)", "evalseq-refused=ApplyEvaluationKey(degree-2 input)", "evalseq-refused=Relinearize(missing key)")
 	e = append(e, "manydigits=>=20", "manydigits=16..19", "manydigits=8..15", "manydigits=<8")
 	for _, ch := range manyDigitChains() {
 		e = append(e, "manydigits-chain="+ch.Name)
